@@ -232,6 +232,12 @@ class JSONSerializer(AbstractIncrementalPacketSerializer[Any, Any]):
                     },
                 ) from exc
             raise DeserializeError(msg) from exc
+        except (RecursionError, ValueError) as exc:
+            # Not a JSONDecodeError: too deeply nested document, or integer literal exceeding the str-to-int conversion limit.
+            msg = f"JSON decode error: {exc}"
+            if self.debug:
+                raise DeserializeError(msg, error_info={"document": document}) from exc
+            raise DeserializeError(msg) from exc
         return packet
 
     @final
@@ -298,6 +304,12 @@ class JSONSerializer(AbstractIncrementalPacketSerializer[Any, Any]):
                         "colno": exc.colno,
                     },
                 ) from exc
+            raise IncrementalDeserializeError(msg, remaining_data) from exc
+        except (RecursionError, ValueError) as exc:
+            # Not a JSONDecodeError: too deeply nested document, or integer literal exceeding the str-to-int conversion limit.
+            msg = f"JSON decode error: {exc}"
+            if self.debug:
+                raise IncrementalDeserializeError(msg, remaining_data=remaining_data, error_info={"document": document}) from exc
             raise IncrementalDeserializeError(msg, remaining_data) from exc
         return packet, remaining_data
 
